@@ -31,6 +31,7 @@ RULE += (
 RULE += (
          'End tags differing in letter case; start= names spelled with '
          'regex metacharacters. ')
+RULE += ('Round 8: non-bindings at every position of dtml-let; attribute strings accepted by one tag transplanted to tags that do not accept them (same source, later compilation). ')
 ASSUMPTIONS = [
     'sources are <= 4 KB with nesting <= 60 (beyond that the recursive '
     'parser meets Python\'s recursion limit, a resource bound)',
